@@ -47,6 +47,7 @@ type HarnessSpec struct {
 	Reach     []string `json:"reach,omitempty"`
 	Bounds    string   `json:"bounds"`
 	Funcs     []string `json:"funcs,omitempty"` // anchored functions expected on executed paths
+	Summaries map[string]string `json:"summaries,omitempty"`
 }
 
 type Index struct {
@@ -361,7 +362,7 @@ func cmdCheck(args []string) int {
 				continue
 			}
 			jobs = append(jobs, interp.Job{Property: prop, Harness: h.Harness, Pkg: pkgPath(h.Pkg), Instance: i, Mode: h.Mode, Solver: h.Solver,
-				TimeoutMS: to, MaxSteps: h.MaxSteps, MaxDepth: h.MaxDepth, MaxPaths: h.MaxPaths, SliceS: 15, KFOpen: kfOpen})
+				TimeoutMS: to, MaxSteps: h.MaxSteps, MaxDepth: h.MaxDepth, MaxPaths: h.MaxPaths, SliceS: 15, KFOpen: kfOpen, Summaries: h.Summaries})
 		}
 	}
 	if len(jobs) == 0 {
